@@ -568,12 +568,14 @@ def _ret_to(body, make):
 
 
 class Inliner(object):
-    def __init__(self, tree, new_fns):
+    def __init__(self, tree, new_fns, helpers_by_origin=()):
+        # helpers_by_origin: names that came into this module from a module that did not exist then (P12): helpers whatever their spelling
         self.tree = tree
         self.helpers = {}          # name -> Helper (module level) ; ('C','m') -> Helper
         self.by_method = {}
         for st in tree.body:
-            if isinstance(st, ast.FunctionDef) and st.name in new_fns and st.name.startswith('_') and not st.name.startswith('__'):
+            if isinstance(st, ast.FunctionDef) and st.name in new_fns and (st.name.startswith('_') or st.name in helpers_by_origin) \
+                    and not st.name.startswith('__'):
                 h = Helper(st)
                 if h.ok:
                     self.helpers[st.name] = h
@@ -1002,13 +1004,138 @@ class _Rename(ast.NodeTransformer):
         return node
 
 
+# ------------------------------------------------------------------ P12 a module that did not exist then is folded back into its importer
+def _resolve_from(rel, node):
+    """rel path of the module an ImportFrom in module `rel` names, or None"""
+    if node.level:
+        base = os.path.dirname(rel)
+        for _ in range(node.level - 1):
+            base = os.path.dirname(base)
+        parts = (node.module or '').split('.') if node.module else []
+        cand = os.path.join(base, *parts)
+    else:
+        if not node.module or not (node.module == 'athlib' or node.module.startswith('athlib.')):
+            return None
+        cand = os.path.join(*node.module.split('.'))
+    return cand + '.py'
+
+
+def _absolutise(rel_new, st):
+    """an import of the new module, rewritten so that it means the same when it stands in another module"""
+    if isinstance(st, ast.ImportFrom) and st.level:
+        base = os.path.dirname(rel_new)
+        for _ in range(st.level - 1):
+            base = os.path.dirname(base)
+        mod = '.'.join([x for x in base.split(os.sep) if x] + ([st.module] if st.module else []))
+        return ast.ImportFrom(module=mod, names=st.names, level=0)
+    return st
+
+
+def fold_back_new_modules(d, baseline):
+    """P12.  A module N that is not in the baseline and from which a baseline module M imports names at top level is the result of
+    moving code out of M: the import statement in M is replaced by N's own imports and definitions (an `a as b` import adds `b = a`).
+    Done only when N consists of imports, definitions and assignments, defines every imported name, and none of its other names
+    clashes with a name of M.  N is removed from the view when nothing else imports it.  Returns the rel paths changed."""
+    if not baseline:
+        return [], {}
+    trees, changed, names_in = {}, [], {}
+    for root, _, fs in os.walk(os.path.join(d, 'athlib')):
+        for f in fs:
+            if f.endswith('.py'):
+                p = os.path.join(root, f)
+                try:
+                    trees[os.path.relpath(p, d)] = ast.parse(open(p, encoding='utf-8').read())
+                except SyntaxError:
+                    pass
+    new_mods = {rel for rel in trees if rel not in baseline}
+    if not new_mods:
+        return [], {}
+    folded = set()
+    for rel, tree in sorted(trees.items()):
+        if rel in new_mods:
+            continue
+        body, did = [], False
+        own = set()
+        for st in tree.body:
+            if isinstance(st, (ast.FunctionDef, ast.ClassDef)):
+                own.add(st.name)
+            else:
+                own.update(assigned_names(st))
+        for st in tree.body:
+            tgt = _resolve_from(rel, st) if isinstance(st, ast.ImportFrom) else None
+            if tgt not in new_mods or any(a.name == '*' for a in st.names):
+                body.append(st)
+                continue
+            nt = copy.deepcopy(trees[tgt])
+            nbody = [x for x in _strip_doc(nt.body)
+                     if not (isinstance(x, (ast.Assign, ast.AnnAssign)) and assigned_names(x) and
+                             all(n.startswith('__') and n.endswith('__') for n in assigned_names(x)))]     # __all__ of N says nothing in M
+            ok = all(isinstance(x, (ast.Import, ast.ImportFrom, ast.FunctionDef, ast.ClassDef, ast.Assign, ast.AnnAssign)) or
+                     (isinstance(x, ast.Expr) and isinstance(x.value, ast.Constant)) for x in nbody)
+            defined = set()
+            for x in nbody:
+                if isinstance(x, (ast.FunctionDef, ast.ClassDef)):
+                    defined.add(x.name)
+                elif isinstance(x, (ast.Import, ast.ImportFrom)):
+                    defined.update((a.asname or a.name).split('.')[0] for a in x.names)
+                else:
+                    defined.update(assigned_names(x))
+            wanted = {a.name for a in st.names}
+            local_defs = {x.name for x in nbody if isinstance(x, (ast.FunctionDef, ast.ClassDef))} | \
+                {n for x in nbody if isinstance(x, (ast.Assign, ast.AnnAssign)) for n in assigned_names(x)}
+            clash = (local_defs - wanted) & own
+            if not ok or not wanted <= defined or clash:
+                body.append(st)
+                continue
+            for x in nbody:
+                if isinstance(x, ast.ImportFrom) and _resolve_from(tgt, x) == rel:
+                    continue                     # names of M itself
+                if isinstance(x, ast.Expr):
+                    continue
+                body.append(_absolutise(tgt, x))
+            for a in st.names:
+                if a.asname and a.asname != a.name:
+                    body.append(ast.Assign(targets=[ast.Name(id=a.asname, ctx=ast.Store())], value=ast.Name(id=a.name, ctx=ast.Load()),
+                                           lineno=st.lineno))
+            folded.add(tgt)
+            names_in.setdefault(rel, set()).update(local_defs)
+            did = True
+        if did:
+            tree.body[:] = body
+            ast.fix_missing_locations(tree)
+            try:
+                src = ast.unparse(tree) + '\n'
+                ast.parse(src)
+            except (SyntaxError, ValueError, RecursionError):
+                continue
+            open(os.path.join(d, rel), 'w', encoding='utf-8').write(src)
+            trees[rel] = ast.parse(src)
+            changed.append(rel)
+    for tgt in folded:
+        still = False
+        for rel, tree in trees.items():
+            if rel == tgt:
+                continue
+            for st in ast.walk(tree):
+                if isinstance(st, ast.ImportFrom) and _resolve_from(rel, st) == tgt:
+                    still = True
+                elif isinstance(st, ast.Import) and any(a.name == tgt[:-3].replace(os.sep, '.') for a in st.names):
+                    still = True
+        if not still:
+            try:
+                os.remove(os.path.join(d, tgt))
+            except OSError:
+                pass
+    return changed, names_in
+
+
 # ------------------------------------------------------------------ driver
 # (name, control-flow form or None, rewrite .get lookups as membership tests)
 VIEWS = [('helpers', (None, False)), ('nested', ('nested', False)), ('flat', ('flat', False)),
          ('lookups', (None, True)), ('lookups+nested', ('nested', True)), ('lookups+flat', ('flat', True))]
 
 
-def normalise_source(src, rel, baseline, cf=None, lookups=True, renames=None):
+def normalise_source(src, rel, baseline, cf=None, lookups=True, renames=None, folded_names=()):
     tree = ast.parse(src)
     n_ren = 0
     if renames:
@@ -1021,7 +1148,7 @@ def normalise_source(src, rel, baseline, cf=None, lookups=True, renames=None):
     new_consts = set(consts) - set(base['constants']) if base else set()
     changed = n_ren
     if new_fns:
-        changed += Inliner(tree, new_fns).run()
+        changed += Inliner(tree, new_fns, folded_names).run()
     if new_consts:
         changed += subst_new_constants(tree, {c for c in new_consts if '.' not in c})
     before = ast.dump(tree)
@@ -1053,6 +1180,12 @@ def make_view(repo_root, cf=None, lookups=True):
         elif os.path.exists(src):
             os.makedirs(os.path.dirname(dst), exist_ok=True)
             shutil.copy(src, dst)
+    folded_names = {}
+    try:
+        ch, folded_names = fold_back_new_modules(d, baseline)
+        changed += ch
+    except (OSError, ValueError, RecursionError):
+        pass
     trees = {}
     for root, _, fs in os.walk(os.path.join(d, 'athlib')):
         for f in fs:
@@ -1071,7 +1204,7 @@ def make_view(repo_root, cf=None, lookups=True):
             rel = os.path.relpath(p, d)
             try:
                 s = open(p, encoding='utf-8').read()
-                s2 = normalise_source(s, rel, baseline, cf, lookups, renames)
+                s2 = normalise_source(s, rel, baseline, cf, lookups, renames, folded_names.get(rel, ()))
             except (SyntaxError, RecursionError, ValueError):
                 continue
             if s2 is not None:
@@ -1080,5 +1213,6 @@ def make_view(repo_root, cf=None, lookups=True):
                 except SyntaxError:
                     continue
                 open(p, 'w', encoding='utf-8').write(s2)
-                changed.append(rel)
+                if rel not in changed:
+                    changed.append(rel)
     return d, changed
